@@ -12,13 +12,26 @@
    Symbolic parts (DESIGN 8): the own-chain hashing id of a block (BLAKE3 of the base hash and the ancestors) depends,
    among the fields a job can differ in, only on the template the block was copied from and on the recipient; it is
    the constructor [Own tpl rcp] (collision freedom of the hash = injectivity of the constructor).  Extra nonces, job
-   ids, foreign chains' hashes are opaque numbers.  Proof of work is an uninterpreted function [pow_ok] of the blob.
+   ids, foreign chains' hashes are opaque numbers.  The proof-of-work hash is an uninterpreted function [pow] of the
+   seed it is keyed with and of the blob (randomvirel.PowHash(seed, blob.Serialize()), read as the 128-bit number the
+   node compares with the difficulty); WHICH seed the code passes and WHICH difficulty it compares with are part of
+   the model: the seed is a number (block.GetSeedhashId of a timestamp), the comparison is the word-level
+   ValidPowValue of Model/Difficulty.v.  The target sent with a job is util.GetTarget of Model/Difficulty.v applied
+   to the difficulty the code passes at that place.
    Random draws of the server (job id, extra nonce) are inputs carried by the events. *)
 From Coq Require Import NArith List Bool.
-From Virel Require Import Lib.Config Lib.AMap.
+From Virel Require Import Lib.Config Lib.AMap Model.Difficulty.
 Import ListNotations.
 Open Scope N_scope.
 Open Scope bool_scope.
+
+(* util.GetTargetBytes(diff) as the number in the eight bytes (None = integer division by zero panics) and
+   Block.ValidPowHash / block.ValidPowHash (None = uint128 division by zero panics) *)
+Definition job_target (d : N) : option N := match get_target d with Ok t => Some t | Panic => None end.
+Definition pow_valid (val d : N) : option bool := match valid_pow_value val d with Ok b => Some b | Panic => None end.
+
+(* block.GetSeedhashId(time) = time / (config.SEEDHASH_DURATION * 1000); MiningBlob.GetSeed hashes this number *)
+Definition seed_id (cfg : config) (ts : N) : N := ts / (seedhash_duration cfg * 1000).
 
 (* ---- blocks and mining blobs (block/commitment.go, block/miningblob.go, block/block.go) ---- *)
 
@@ -46,10 +59,13 @@ Record blob := mkblob { mb_ts : N; mb_extra : N; mb_nonce : N; mb_chains : list 
 Definition blob_eqb (a b : blob) : bool :=
   (mb_ts a =? mb_ts b) && (mb_extra a =? mb_extra b) && (mb_nonce a =? mb_nonce b) && chains_eqb (mb_chains a) (mb_chains b).
 
+Definition blob_seed (cfg : config) (m : blob) : N := seed_id cfg (mb_ts m).     (* m.GetSeed() *)
+
 (* the fields of block.Block that the stratum code reads or writes; everything else (height, ancestors, transactions,
-   difficulty, side blocks, stake data) is fixed by the template and summarised by b_tpl, the class of templates with
-   that content (two templates of one height that differ only in timestamp and extra nonce have the same base hash) *)
-Record blk := mkblk { b_tpl : N; b_rcp : N; b_ts : N; b_extra : N; b_nonce : N; b_chains : list chain }.
+   side blocks, stake data) is fixed by the template and summarised by b_tpl, the class of templates with that content
+   (two templates of one height that differ only in timestamp and extra nonce have the same base hash).  b_diff is
+   Block.Difficulty: no stratum code writes it, blockFound judges the proof of work against it. *)
+Record blk := mkblk { b_tpl : N; b_rcp : N; b_ts : N; b_extra : N; b_nonce : N; b_chains : list chain; b_diff : N }.
 
 Definition IS_MASTERCHAIN_ID : N := 15244028455943590085.    (* config/advanced.go: 0xd38dab1d4676d0c5 *)
 Definition is_masterchain (cfg : config) : bool := network_id cfg =? IS_MASTERCHAIN_ID.
@@ -90,7 +106,7 @@ Fixpoint smb_loop (nid : N) (l : list chain) (first : bool) (last : N) (contains
   end.
 Definition set_mining_blob (cfg : config) (b : blk) (m : blob) : option blk :=
   match smb_loop (network_id cfg) (mb_chains m) true 0 false [] with
-  | Some oc => Some (mkblk (b_tpl b) (b_rcp b) (mb_ts m) (mb_extra m) (mb_nonce m) oc)
+  | Some oc => Some (mkblk (b_tpl b) (b_rcp b) (mb_ts m) (mb_extra m) (mb_nonce m) oc (b_diff b))
   | None => None
   end.
 
@@ -102,18 +118,26 @@ Definition pays (cfg : config) (b : blob) (addr : N) : bool :=
 
 (* ---- server state ---- *)
 
-Record job := mkjob { j_id : N; j_ptr : N; j_sent : blob }.     (* MinerJob: JobID, Block (pointer); the blob that was sent *)
+(* MinerJob: JobID, Block (pointer), Seed (of the blob at the time the job was made); and what was sent with the job:
+   the blob and the target (the number in the eight target bytes) *)
+Record job := mkjob { j_id : N; j_ptr : N; j_seed : N; j_sent : blob; j_target : N }.
 Record conn := mkconn { c_addr : N; c_jobs : list job }.        (* ConnData: Address, Jobs *)
 
 Record server := mkserver {
-  s_last : option N;            (* Server.LastBlock (nil = None) *)
-  s_tpls : list (N * N);        (* k-th call of SendJob -> the pointer its goroutines captured (bl) *)
+  s_last : option (N * N);      (* Server.LastBlock (nil = None) and Server.LastMinDiff, written together under the server's lock *)
+  s_tpls : list (N * (N * N));  (* k-th call of SendJob -> what its goroutines captured: the pointer bl and the argument diff *)
   s_conns : list (N * conn);    (* Server.conns, logged-in connections *)
   s_heap : list (N * blk);      (* pointer -> block *)
   s_next : N                    (* next unused pointer *)
 }.
 
 Definition init_server : server := mkserver None [] [] [] 1.
+
+(* a value meets a target in the reading of the code itself (mergestratum.go: util.ByteTargetToDiff of the eight
+   target bytes, then the uint128 comparison): val <= (2^128-1) / ((2^64-1) / target), a zero target standing for
+   difficulty 1 *)
+Definition target_diff (t : N) : N := if t =? 0 then 1 else max_u64 / t.
+Definition meets_target (val t : N) : bool := val <=? (two128 - 1) / target_diff t.
 
 Inductive nonce_in := NBadHex | NBytes (len val : N).       (* hex text of the nonce: undecodable | bytes, LE32 of the first four *)
 Inductive extra_in := XNone | XBytes (len val : N).         (* nonce_extra: absent | bytes (val meaningful when len = 16) *)
@@ -126,14 +150,16 @@ Definition miner_blob (sent : blob) (nonce : N) (x : extra_in) : blob :=
 
 Inductive event :=
 | ELogin (cid addr jobid : N)                 (* addr 0 = not an address; jobid = the id the server draws *)
-| ETemplate (tpl ts extra : N) (chains : list chain)   (* NewStratumJob: GetBlockTemplate (content class tpl) + the prologue of SendJob *)
+| ETemplate (tpl ts extra : N) (chains : list chain) (diff mindiff : N)
+    (* NewStratumJob: GetBlockTemplate (content class tpl, Block.Difficulty diff, minimum difficulty mindiff) + the
+       prologue of SendJob(bl, mindiff) *)
 | ENotify (cid k extra jobid : N)             (* the critical section of the goroutine SendJob number k started for cid *)
 | ESubmit (cid jobid : N) (nonce : nonce_in) (extra : extra_in) (mb : mblob_in)
 | EDisconnect (cid : N).
 
 Inductive outcome :=
 | ONone                        (* nothing is sent *)
-| OJob (jobid : N) (sent : blob)
+| OJob (jobid : N) (sent : blob) (target : N)
 | OLoginRefused                (* error reply, connection dropped *)
 | OUnknownJob                  (* "stale job" *)
 | OMalformed                   (* error reply, connection dropped *)
@@ -144,7 +170,7 @@ Inductive outcome :=
 
 Section Step.
 Variable cfg : config.
-Variable pow_ok : blob -> bool.
+Variable pow : N -> blob -> N.      (* seed id, blob -> the 128-bit proof-of-work value *)
 
 Definition hist : nat := N.to_nat (stratum_jobs_history cfg).
 
@@ -165,8 +191,8 @@ Definition kick (s : server) (cid : N) : server := set_conns s (ndel (s_conns s)
 Definition alloc (s : server) (b : blk) : server :=
   mkserver (s_last s) (s_tpls s) (s_conns s) (nset (s_heap s) (s_next s) b) (s_next s + 1).
 
-(* login in handleConn: jobBl := *bc.Stratum.LastBlock (a copy at a fresh address); jobBl.Recipient = addr; the job
-   keeps the pointer to the copy. *)
+(* login in handleConn: jobBl := *bc.Stratum.LastBlock (a copy at a fresh address) and lastMinDiff := LastMinDiff under
+   one read lock; jobBl.Recipient = addr; the job keeps the pointer to the copy; the target is that of lastMinDiff. *)
 Definition do_login (s : server) (cid addr jid : N) : server * outcome :=
   match nget (s_conns s) cid with
   | Some _ => (s, ONone)                                  (* a connection logs in once *)
@@ -174,43 +200,56 @@ Definition do_login (s : server) (cid addr jid : N) : server * outcome :=
       if addr =? 0 then (s, OLoginRefused) else
       match s_last s with
       | None => (s, OLoginRefused)                        (* "block template is not ready yet" *)
-      | Some p =>
+      | Some (p, md) =>
           match nget (s_heap s) p with
           | None => (s, OPanic)
           | Some b =>
-              let b' := mkblk (b_tpl b) addr (b_ts b) (b_extra b) (b_nonce b) (b_chains b) in
+              let b' := mkblk (b_tpl b) addr (b_ts b) (b_extra b) (b_nonce b) (b_chains b) (b_diff b) in
               match blob_of cfg b' with
               | None => (s, OPanic)
               | Some sent =>
-                  let s1 := alloc s b' in
-                  (set_conns s1 (nset (s_conns s1) cid (mkconn addr [mkjob jid (s_next s) sent])), OJob jid sent)
+                  match job_target md with                  (* util.GetTargetBytes(lastMinDiff) *)
+                  | None => (s, OPanic)
+                  | Some t =>
+                      let s1 := alloc s b' in
+                      (set_conns s1 (nset (s_conns s1) cid (mkconn addr [mkjob jid (s_next s) (blob_seed cfg sent) sent t])),
+                       OJob jid sent t)
+                  end
               end
           end
       end
   end.
 
-(* NewStratumJob: the block GetBlockTemplate allocates (recipient INVALID_ADDRESS = 0); SendJob stores the pointer in
-   LastBlock and its goroutines capture it *)
-Definition do_template (s : server) (tpl ts extra : N) (chains : list chain) : server * outcome :=
+(* NewStratumJob: the block GetBlockTemplate allocates (recipient INVALID_ADDRESS = 0); SendJob(bl, mindiff) stores the
+   pointer in LastBlock and mindiff in LastMinDiff, and its goroutines capture both arguments *)
+Definition do_template (s : server) (tpl ts extra : N) (chains : list chain) (diff mindiff : N) : server * outcome :=
   let k := N.of_nat (length (s_tpls s)) + 1 in
   let p := s_next s in
-  (mkserver (Some p) (s_tpls s ++ [(k, p)]) (s_conns s) (nset (s_heap s) p (mkblk tpl 0 ts extra 0 chains)) (p + 1), ONone).
+  (mkserver (Some (p, mindiff)) (s_tpls s ++ [(k, (p, mindiff))]) (s_conns s)
+            (nset (s_heap s) p (mkblk tpl 0 ts extra 0 chains diff)) (p + 1), ONone).
 
 (* SendJob, body of v.Update for one connection: jobBl := *bl (a copy at a fresh address); rand.Read(jobBl.NonceExtra);
-   jobBl.Recipient = c.Address; the job keeps the pointer to the copy. *)
+   jobBl.Recipient = c.Address; the job keeps the pointer to the copy; the target is that of the argument diff of
+   THIS call of SendJob (the k-th), whatever LastMinDiff has become by the time the critical section runs. *)
 Definition do_notify (s : server) (cid k extra jid : N) : server * outcome :=
   match nget (s_tpls s) k, nget (s_conns s) cid with
-  | Some p, Some c =>
+  | Some (p, d), Some c =>
       if c_addr c =? 0 then (s, ONone) else
       match nget (s_heap s) p with
       | None => (s, OPanic)
       | Some b =>
-          let b' := mkblk (b_tpl b) (c_addr c) (b_ts b) extra (b_nonce b) (b_chains b) in
+          let b' := mkblk (b_tpl b) (c_addr c) (b_ts b) extra (b_nonce b) (b_chains b) (b_diff b) in
           match blob_of cfg b' with
           | None => (s, OPanic)
           | Some sent =>
-              let s1 := alloc s b' in
-              (set_conns s1 (nset (s_conns s1) cid (mkconn (c_addr c) (push_job (c_jobs c) (mkjob jid (s_next s) sent)))), OJob jid sent)
+              match job_target d with                       (* util.GetTargetBytes(diff) *)
+              | None => (s, OPanic)
+              | Some t =>
+                  let s1 := alloc s b' in
+                  (set_conns s1 (nset (s_conns s1) cid
+                     (mkconn (c_addr c) (push_job (c_jobs c) (mkjob jid (s_next s) (blob_seed cfg sent) sent t)))),
+                   OJob jid sent t)
+              end
           end
       end
   | _, _ => (s, ONone)
@@ -228,8 +267,21 @@ Definition complete (b : blk) (nonce : N) (x : extra_in) (mb : mblob_in) : compl
   | None => CBlobRefused
   | Some b1 =>
       let e := match x with XBytes len v => if len =? 16 then v else b_extra b1 | XNone => b_extra b1 end in
-      CBlock (mkblk (b_tpl b1) (b_rcp b1) (b_ts b1) e nonce (b_chains b1))
+      CBlock (mkblk (b_tpl b1) (b_rcp b1) (b_ts b1) e nonce (b_chains b1) (b_diff b1))
   end.
+
+(* the end of "submit": mb := jb.Commitment().MiningBlob(); powhash := PowHash(mb.GetSeed(), mb.Serialize());
+   blockFound(&jb, powhash): outside the masterchain, found iff jb.ValidPowHash(powhash), i.e. the value meets the
+   difficulty of the job's own block; the seed is that of the blob that is judged (its timestamp may come from a
+   merge-mining blob and lie in another seed period than the job's), not the seed stored with the job *)
+Definition judge (d rcp : N) (judged : blob) : option outcome :=
+  match pow_valid (pow (blob_seed cfg judged) judged) d with
+  | None => None                                  (* difficulty zero: uint128 division panics *)
+  | Some true => Some (OFound rcp judged)
+  | Some false => Some ORejectedLowDiff
+  end.
+Definition submit_result (s : server) (cid : N) (r : option outcome) : server * outcome :=
+  match r with Some o => (s, o) | None => (kick s cid, OPanic) end.
 
 (* "submit" in handleConn *)
 Definition do_submit (s : server) (cid jid : N) (nonce : nonce_in) (x : extra_in) (mb : mblob_in) : server * outcome :=
@@ -251,7 +303,7 @@ Definition do_submit (s : server) (cid jid : N) (nonce : nonce_in) (x : extra_in
                   | CBlock jb =>
                       match blob_of cfg jb with
                       | None => (kick s cid, OPanic)
-                      | Some judged => (s, if pow_ok judged then OFound (b_rcp jb) judged else ORejectedLowDiff)
+                      | Some judged => submit_result s cid (judge (b_diff jb) (b_rcp jb) judged)
                       end
                   end
               end
@@ -262,7 +314,7 @@ Definition do_submit (s : server) (cid jid : N) (nonce : nonce_in) (x : extra_in
 Definition step (s : server) (e : event) : server * outcome :=
   match e with
   | ELogin cid addr jid => do_login s cid addr jid
-  | ETemplate tpl ts extra ch => do_template s tpl ts extra ch
+  | ETemplate tpl ts extra ch d md => do_template s tpl ts extra ch d md
   | ENotify cid k extra jid => do_notify s cid k extra jid
   | ESubmit cid jid n x mb => do_submit s cid jid n x mb
   | EDisconnect cid => (kick s cid, ONone)
@@ -278,16 +330,17 @@ End Step.
 
 (* ---- the miner's side of the trace ----
    What a connection was told, as a function of the events and the answers only: its login address and every job
-   (id, blob) it was sent, oldest first.  "Within the advertised history" = among the last STRATUM_JOBS_HISTORY of
+   (id, blob, target) it was sent, oldest first.  "Within the advertised history" = among the last STRATUM_JOBS_HISTORY of
    them.  Used by Check/C15.v on the real server's answers and by the theorems of Props/C15.v on the model's. *)
-Record mview := mkmview { mv_addr : N; mv_jobs : list (N * blob) }.
+Record adv := mkadv { a_sent : blob; a_target : N }.
+Record mview := mkmview { mv_addr : N; mv_jobs : list (N * adv) }.
 
 Definition view_step (g : list (N * mview)) (e : event) (o : outcome) : list (N * mview) :=
   match e, o with
-  | ELogin cid addr _, OJob j b => nset g cid (mkmview addr [(j, b)])
-  | ENotify cid _ _ _, OJob j b =>
+  | ELogin cid addr _, OJob j b t => nset g cid (mkmview addr [(j, mkadv b t)])
+  | ENotify cid _ _ _, OJob j b t =>
       match nget g cid with
-      | Some v => nset g cid (mkmview (mv_addr v) (mv_jobs v ++ [(j, b)]))
+      | Some v => nset g cid (mkmview (mv_addr v) (mv_jobs v ++ [(j, mkadv b t)]))
       | None => g
       end
   | EDisconnect cid, _ => ndel g cid
@@ -297,21 +350,21 @@ Definition view_step (g : list (N * mview)) (e : event) (o : outcome) : list (N 
 
 Definition lastn {A} (n : nat) (l : list A) : list A := skipn (length l - n) l.
 
-Fixpoint find_sent (l : list (N * blob)) (jid : N) : option blob :=
+Fixpoint find_sent (l : list (N * adv)) (jid : N) : option adv :=
   match l with
   | [] => None
   | (j, b) :: r => if j =? jid then Some b else find_sent r jid
   end.
 
-Definition advertised (cfg : config) (v : mview) (jid : N) : option blob :=
+Definition advertised (cfg : config) (v : mview) (jid : N) : option adv :=
   find_sent (lastn (N.to_nat (stratum_jobs_history cfg)) (mv_jobs v)) jid.
 
 Section RunView.
 Variable cfg : config.
-Variable pow_ok : blob -> bool.
+Variable pow : N -> blob -> N.
 Fixpoint run_view (s : server) (g : list (N * mview)) (l : list event) : server * list (N * mview) :=
   match l with
   | [] => (s, g)
-  | e :: r => let '(s1, o) := step cfg pow_ok s e in run_view s1 (view_step g e o) r
+  | e :: r => let '(s1, o) := step cfg pow s e in run_view s1 (view_step g e o) r
   end.
 End RunView.
